@@ -80,13 +80,21 @@ def _stmts(accs, depth, max_stmts, calls=True, pure=True, carried=True, unit_wei
                 u = draw(_unit(accs))
                 out.append(u)
                 for _ in range(draw(st.integers(0, 2))):
-                    mk = draw(st.sampled_from((["call", "call", "callfor", "callif"] if calls else []) + ["unit"] + (["pure"] if pure else [])))
+                    mk = draw(st.sampled_from((["call", "call", "carrier", "carrier"] if calls else []) + ["unit"] + (["pure"] if pure else [])))
                     if mk == "call":
                         out.append(["call", draw(st.sampled_from([False, False, True])), draw(st.integers(0, 1))])
-                    elif mk == "callfor" and depth > 0:
-                        out.append(["for", draw(_loop_hdr()), [["call", False, draw(st.integers(0, 1))]], [], []])
-                    elif mk == "callif" and depth > 0:
-                        out.append(["if", ["p", draw(st.integers(0, 3))], [["call", False, draw(st.integers(0, 1))]], []])
+                    elif mk == "carrier":
+                        # an opaque call wrapped in 1..2 region ops that hold nothing else: a loop, the then- or the else-branch of an if
+                        c = ["call", False, draw(st.integers(0, 1))]
+                        for _ in range(draw(st.integers(1, 2)) if depth > 1 else (1 if depth > 0 else 0)):
+                            w = draw(st.sampled_from(["for", "then", "else", "else"]))
+                            if w == "for":
+                                c = ["for", draw(_loop_hdr()), [c], [], []]
+                            elif w == "then":
+                                c = ["if", ["p", draw(st.integers(0, 3))], [c], []]
+                            else:
+                                c = ["if", ["p", draw(st.integers(0, 3))], [], [c]]
+                        out.append(c)
                     elif mk == "pure":
                         out.append(["pure", draw(st.sampled_from(PURE_OPS)), draw(_vref()), draw(_vref())])
                     else:
@@ -94,7 +102,22 @@ def _stmts(accs, depth, max_stmts, calls=True, pure=True, carried=True, unit_wei
                 u2 = ["unit", u[1], list(u[2]), draw(st.sampled_from([None, None, 0, 1]))]
                 if draw(st.integers(0, 2)) == 0 and u2[2]:
                     u2[2][draw(st.integers(0, len(u2[2]) - 1))] = draw(_vref())
-                out.append(u2)
+                wrap = draw(st.sampled_from([None, None, None, "then", "else", "for"])) if depth > 0 else None
+                if wrap is None:
+                    out.append(u2)
+                    continue
+                # the repeated unit sits in a conditional or a loop (its setup may be removed completely, leaving a launch that uses
+                # the outer state from inside a region) and a further, different unit of the same accelerator follows
+                if wrap == "for":
+                    out.append(["for", draw(_loop_hdr()), [u2], [], []])
+                elif wrap == "then":
+                    out.append(["if", ["p", draw(st.integers(0, 3))], [u2], []])
+                else:
+                    out.append(["if", ["p", draw(st.integers(0, 3))], [], [u2]])
+                u3 = ["unit", u[1], list(u[2]), draw(st.sampled_from([None, None, 0]))]
+                if u3[2]:
+                    u3[2][draw(st.integers(0, len(u3[2]) - 1))] = draw(_vref())
+                out.append(u3)
                 continue
             if k == "if_chain":
                 # if / else-if chain without a final else whose setting branches agree on some field values, followed by a unit that
